@@ -1,4 +1,564 @@
-//! C14 — not built yet.
+//! C14 — secret sharing reconstructs, with the documented per-party layout.
+//! Correspondence of Model/Share.v with typed_value.rs / replicated_shares.rs / mpc/utils.rs, plus
+//! the native oracle: reveal(share(v)) == v, any two parties reconstruct, slot layout, and a coarse
+//! distribution check of a single party's view.
+//!
+//! Values are shown to the model in decoded form: every byte leaf is read with the public
+//! `bytes::vec_u128_from_bytes(bytes, st)` (st = the leaf's scalar type in the value's type), so a
+//! Bit leaf shows all 8 bits of every byte, padding included.  With a seeded PRNG the two random
+//! shares are re-derived independently from a second PRNG with the same seed (`get_random_value`
+//! twice, then three more draws for the garbage) and handed to the model as r0 r1 g0 g1 g2.
+use crate::coqfmt::*;
+use crate::gen::*;
 use crate::out::Out;
-pub const HEADER: &str = "From CC Require Import Base.Prelude.";
-pub fn run(_tier: &str, _seed: u64, _out: &mut Out) {}
+use crate::rng::Rng;
+use ciphercore_base::bytes::vec_u128_from_bytes;
+use ciphercore_base::data_types::*;
+use ciphercore_base::data_values::Value;
+use ciphercore_base::mpc::utils::share_vector;
+use ciphercore_base::random::PRNG;
+use ciphercore_base::typed_value::{generalized_add, generalized_subtract, TypedValue};
+use ciphercore_base::typed_value_secret_shared::replicated_shares::ReplicatedShares;
+use ciphercore_base::typed_value_secret_shared::TypedValueSecretShared;
+use serde_json::json;
+
+pub const HEADER: &str = "From CC Require Import Base.Prelude Base.Scalar Base.Ty Model.Share.";
+
+type Seed = [u8; 16];
+
+// ------------------------------------------------------------------------------------ decoding
+fn child_types(t: &Type) -> Vec<Type> {
+    match t {
+        Type::Vector(n, e) => (0..*n).map(|_| (**e).clone()).collect(),
+        Type::Tuple(ts) => ts.iter().map(|x| (**x).clone()).collect(),
+        Type::NamedTuple(fs) => fs.iter().map(|(_, x)| (**x).clone()).collect(),
+        _ => vec![],
+    }
+}
+
+/// Decoded form of `v` read along type `t`; None when the kinds do not line up (never for
+/// values produced along `t`).
+fn dec(v: &Value, t: &Type) -> Option<String> {
+    match t {
+        Type::Scalar(st) | Type::Array(_, st) => v
+            .access(
+                |b| Ok(vec_u128_from_bytes(b, *st).ok().map(|xs| format!("(VLeaf {})", list_u128(&xs)))),
+                |_| Ok(None),
+            )
+            .unwrap(),
+        _ => {
+            let ts = child_types(t);
+            v.access(
+                |_| Ok(None),
+                |vs| {
+                    if vs.len() > ts.len() {
+                        return Ok(None);
+                    }
+                    let mut parts = vec![];
+                    for (c, ct) in vs.iter().zip(ts.iter()) {
+                        match dec(c, ct) {
+                            Some(s) => parts.push(s),
+                            None => return Ok(None),
+                        }
+                    }
+                    Ok(Some(format!("(VNode [{}])", parts.join("; "))))
+                },
+            )
+            .unwrap()
+        }
+    }
+}
+fn dec_tv(tv: &TypedValue) -> Option<String> {
+    dec(&tv.value, &tv.t).map(|s| format!("({}, {})", ty(&tv.t), s))
+}
+fn opt_res<T>(r: &Outcome<T>, f: impl Fn(&T) -> Option<String>) -> Option<String> {
+    match r {
+        Outcome::Ok(x) => f(x).map(|s| format!("(Ok {})", s)),
+        Outcome::Err => Some("Err".to_string()),
+        Outcome::Panic => Some("Panic".to_string()),
+    }
+}
+fn dec_tvs(tvs: &Vec<TypedValue>) -> Option<String> {
+    let mut parts = vec![];
+    for tv in tvs {
+        parts.push(dec_tv(tv)?);
+    }
+    Some(format!("[{}]", parts.join("; ")))
+}
+
+// ------------------------------------------------------------------------------------ generators
+fn leaf_count(t: &Type) -> usize {
+    match t {
+        Type::Scalar(_) => 1,
+        Type::Array(sh, _) => sh.iter().product::<u64>() as usize,
+        _ => 0,
+    }
+}
+/// flags: (some element has its sign bit set, some element is >= 2^64, a Bit leaf has non-zero padding bits)
+fn gen_value(t: &Type, rng: &mut Rng, flags: &mut (bool, bool, bool)) -> Value {
+    match t {
+        Type::Scalar(st) | Type::Array(_, st) if rng.chance(1, 5) => {
+            // raw bytes of the right length: for Bit leaves the padding bits of the last byte are
+            // arbitrary (check_type accepts them), for the other types plain uniform elements
+            let nbytes = ((get_size_in_bits(t.clone()).unwrap() + 7) / 8) as usize;
+            let b: Vec<u8> = (0..nbytes).map(|_| rng.next() as u8).collect();
+            if *st == BIT && leaf_count(t) % 8 != 0 && (b[nbytes - 1] >> (leaf_count(t) % 8)) != 0 {
+                flags.2 = true;
+            }
+            Value::from_bytes(b)
+        }
+        Type::Scalar(st) | Type::Array(_, st) => {
+            let n = leaf_count(t);
+            let xs: Vec<u128> = (0..n)
+                .map(|_| {
+                    let x = boundary_i128(*st, rng) as u128;
+                    if *st == BIT {
+                        x & 1
+                    } else {
+                        let w = width(*st);
+                        let m = if w == 128 { x } else { x & ((1u128 << w) - 1) };
+                        if (m >> (w - 1)) & 1 == 1 {
+                            flags.0 = true;
+                        }
+                        if m >> 64 != 0 {
+                            flags.1 = true;
+                        }
+                        x
+                    }
+                })
+                .collect();
+            Value::from_flattened_array(&xs, *st).unwrap()
+        }
+        _ => Value::from_vector(child_types(t).iter().map(|c| gen_value(c, rng, flags)).collect()),
+    }
+}
+
+fn is_nested(t: &Type) -> bool {
+    !matches!(t, Type::Scalar(_) | Type::Array(_, _))
+}
+fn has_ragged_bits(t: &Type) -> bool {
+    match t {
+        Type::Scalar(st) => *st == BIT,
+        Type::Array(sh, st) => *st == BIT && sh.iter().product::<u64>() % 8 != 0,
+        _ => child_types(t).iter().any(has_ragged_bits),
+    }
+}
+fn type_class(t: &Type) -> &'static str {
+    match t {
+        Type::Scalar(_) => "scalar",
+        Type::Array(_, st) => {
+            if *st == BIT {
+                "bit-array"
+            } else {
+                "array"
+            }
+        }
+        Type::Vector(_, _) => "vector",
+        Type::Tuple(_) => "tuple",
+        Type::NamedTuple(_) => "named",
+    }
+}
+fn scalars_in(t: &Type, acc: &mut Vec<ScalarType>) {
+    match t {
+        Type::Scalar(st) | Type::Array(_, st) => acc.push(*st),
+        _ => child_types(t).iter().for_each(|c| scalars_in(c, acc)),
+    }
+}
+
+/// A structural mutation that keeps the scalar type of every leaf position both trees share, so
+/// that the byte-level reading of common leaves is the same on both sides.
+fn mutate(t: &Type, rng: &mut Rng) -> Type {
+    match t {
+        Type::Scalar(st) => match rng.below(3) {
+            0 => array_type(vec![1 + rng.below(3)], *st),
+            1 => tuple_type(vec![scalar_type(*st)]),
+            _ => array_type(vec![2, 2], *st),
+        },
+        Type::Array(sh, st) => match rng.below(4) {
+            0 => scalar_type(*st),
+            1 => {
+                let mut s = sh.clone();
+                s.reverse();
+                s.push(1);
+                array_type(s, *st)
+            }
+            2 => vector_type(2, array_type(sh.clone(), *st)),
+            _ => {
+                let mut s = sh.clone();
+                s[0] += 1 + rng.below(9);
+                array_type(s, *st)
+            }
+        },
+        Type::Vector(n, e) => match rng.below(4) {
+            0 => vector_type(n + 1, (**e).clone()),
+            1 if *n > 0 => vector_type(n - 1, (**e).clone()),
+            2 if *n > 0 => vector_type(*n, mutate(e, rng)),
+            _ => tuple_type((0..*n + 2).map(|_| (**e).clone()).collect()),
+        },
+        Type::Tuple(_) | Type::NamedTuple(_) => {
+            let mut ts = child_types(t);
+            match rng.below(4) {
+                0 if !ts.is_empty() => {
+                    ts.pop();
+                }
+                1 if !ts.is_empty() => {
+                    let i = rng.below(ts.len() as u64) as usize;
+                    ts[i] = mutate(&ts[i], rng);
+                }
+                2 => ts.push(scalar_type(*rng.pick(&ALL_ST))),
+                _ => return scalar_type(*rng.pick(&ALL_ST)),
+            }
+            tuple_type(ts)
+        }
+    }
+}
+
+fn pick_type(k: u64, rng: &mut Rng) -> Type {
+    match k % 8 {
+        0 => scalar_type(ALL_ST[(k / 8) as usize % 11]),
+        1 => array_type(random_shape(rng), ALL_ST[(k / 8) as usize % 11]),
+        2 => array_type(vec![1 + rng.below(70)], BIT),
+        3 => array_type(vec![1 + rng.below(5), 1 + rng.below(5)], BIT),
+        4 => random_type(rng, 2),
+        5 if (k / 8) % 2 == 0 => vector_type(rng.below(4), random_type(rng, 1)),
+        5 => named_tuple_type(vec![("key".to_string(), random_type(rng, 1)), ("val".to_string(), array_type(random_shape(rng), *rng.pick(&ALL_ST))), ("n".to_string(), scalar_type(*rng.pick(&ALL_ST)))]),
+        6 => tuple_type(vec![random_type(rng, 1), array_type(vec![1 + rng.below(20)], BIT), random_type(rng, 2)]),
+        _ => random_type(rng, 3),
+    }
+}
+
+fn seed_of(rng: &mut Rng) -> Seed {
+    rng.u128().to_le_bytes()
+}
+fn draws(seed: Seed, t: &Type, k: usize) -> Vec<Value> {
+    let mut q = PRNG::new(Some(seed)).unwrap();
+    (0..k).map(|_| q.get_random_value(t.clone()).unwrap()).collect()
+}
+fn triple(t: &Type) -> Type {
+    tuple_type(vec![t.clone(), t.clone(), t.clone()])
+}
+fn slots(tv: &TypedValue) -> Vec<Value> {
+    tv.value.to_vector().unwrap()
+}
+
+// ------------------------------------------------------------------------------------ main
+pub fn run(tier: &str, seed: u64, out: &mut Out) {
+    let mut rng = Rng::new(seed ^ 0xC14);
+    let rounds: u64 = match tier {
+        "thorough" => 800,
+        "search" => 4000,
+        _ => 88,
+    };
+    let emit = tier != "search";
+    // the quick tier thins out the kinds whose Rust observation repeats one already emitted for the
+    // same input (elaborating the literals dominates the Coq time); thorough emits everything
+    let all = tier != "quick";
+    for k in 0..rounds {
+        let t = pick_type(k, &mut rng);
+        let mut flags = (false, false, false);
+        let v = gen_value(&t, &mut rng, &mut flags);
+        let tv = match TypedValue::new(t.clone(), v.clone()) {
+            Ok(x) => x,
+            Err(_) => {
+                out.violation("generated-value-rejected", json!({"type": format!("{}", t)}), "TypedValue::new rejects a value built for its type".into());
+                continue;
+            }
+        };
+        let sd = seed_of(&mut rng);
+        let d = draws(sd, &t, 5);
+        let (tc, vc) = (ty(&t), dec(&v, &t).unwrap());
+        let tvc = format!("({}, {})", tc, vc);
+        let dc: Vec<String> = d.iter().map(|x| dec(x, &t).unwrap()).collect();
+        let input = json!({"type": format!("{}", t), "prng_seed": format!("{:032x}", u128::from_le_bytes(sd)), "value": if vc.len() < 300 { vc.clone() } else { format!("{}...", &vc[..300]) }});
+        let nontrivial = flags.0 || flags.1 || flags.2 || is_nested(&t) || has_ragged_bits(&t);
+        out.stat(&format!("type:{}", type_class(&t)));
+        let mut sts = vec![];
+        scalars_in(&t, &mut sts);
+        for st in sts.iter() {
+            out.stat(&format!("st:{}", scalar(*st)));
+        }
+        if has_ragged_bits(&t) {
+            out.stat("ragged-bits");
+        }
+        if flags.2 {
+            out.stat("secret-with-nonzero-padding-bits");
+        }
+        if flags.1 {
+            out.stat("has-element>=2^64");
+        }
+        if flags.0 {
+            out.stat("has-sign-bit-element");
+        }
+
+        // ---- TypedValue::secret_share and secret_share_reveal -------------------------------
+        let sh = { let tv = tv.clone(); observe(move || { let mut p = PRNG::new(Some(sd))?; tv.secret_share(&mut p) }) };
+        if emit {
+            if let Some(r) = opt_res(&sh, dec_tv) {
+                out.case("secret_share", format!("secret_share {} {} {}", tvc, dc[0], dc[1]), r, input.clone(), nontrivial);
+            }
+        }
+        let sh = match sh {
+            Outcome::Ok(x) => x,
+            _ => {
+                out.violation("secret_share-fails", input.clone(), "secret_share failed on a well-typed value".into());
+                continue;
+            }
+        };
+        let shares = slots(&sh);
+        // the first two shares are the first two PRNG draws (what lets the model reproduce share 2)
+        if shares.len() != 3 || shares[0] != d[0] || shares[1] != d[1] || sh.t != triple(&t) {
+            out.violation("shares-not-prng-draws", input.clone(), "shares 0,1 are not the first two draws of the seeded PRNG, or wrong tuple type".into());
+        } else {
+            out.oracle_ok();
+        }
+        let rev = { let sh = sh.clone(); observe(move || sh.secret_share_reveal()) };
+        if emit {
+            if let (Some(l), Some(r)) = (dec_tv(&sh), opt_res(&rev, dec_tv)) {
+                out.case("secret_share_reveal", format!("secret_share_reveal {}", l), r, input.clone(), nontrivial);
+            }
+        }
+        match &rev {
+            Outcome::Ok(r) if r.t == t && r.value == v => out.oracle_ok(),
+            _ => out.violation("reveal-of-share-differs", input.clone(), format!("reveal(share(v)) != v ({})", rev.tag())),
+        }
+
+        // ---- per-party form ------------------------------------------------------------------
+        let loc = { let tv = tv.clone(); observe(move || { let mut p = PRNG::new(Some(sd))?; tv.get_local_shares_for_each_party(&mut p) }) };
+        if emit {
+            if let Some(r) = opt_res(&loc, dec_tvs) {
+                out.case("get_local_shares_for_each_party", format!("get_local_shares_for_each_party {} {}", tvc, dc.join(" ")), r, input.clone(), nontrivial);
+            }
+        }
+        let loc = match loc {
+            Outcome::Ok(x) if x.len() == 3 => x,
+            _ => {
+                out.violation("local-shares-fail", input.clone(), "get_local_shares_for_each_party failed".into());
+                continue;
+            }
+        };
+        let ps: Vec<Vec<Value>> = loc.iter().map(slots).collect();
+        // layout: party i holds share i in slot i, share i+1 in slot i+1, a value that does not
+        // depend on the secret (the (i+2)-th garbage draw) in slot i+2
+        let mut layout_ok = true;
+        for i in 0..3 {
+            layout_ok &= loc[i].t == triple(&t) && ps[i].len() == 3;
+            layout_ok &= ps[i][i] == shares[i] && ps[i][(i + 1) % 3] == shares[(i + 1) % 3];
+            layout_ok &= ps[i][(i + 2) % 3] == d[2 + (i + 2) % 3];
+        }
+        if layout_ok { out.oracle_ok() } else { out.violation("layout", input.clone(), "party i does not hold (s_i, s_i+1, garbage_i+2)".into()) }
+        // any two parties reconstruct
+        for i in 0..3usize {
+            for j in 0..3usize {
+                if i == j { continue; }
+                let c: Vec<Value> = (0..3).map(|k| if k == (i + 2) % 3 { ps[j][k].clone() } else { ps[i][k].clone() }).collect();
+                let ctv = TypedValue { t: triple(&t), value: Value::from_vector(c), name: None };
+                let r = observe(move || ctv.secret_share_reveal());
+                match &r {
+                    Outcome::Ok(r) if r.t == t && r.value == v => out.oracle_ok(),
+                    _ => out.violation("two-parties-do-not-reconstruct", json!({"type": format!("{}", t), "i": i, "j": j, "prng_seed": input["prng_seed"]}), "parties i,j pooled shares do not reveal v".into()),
+                }
+            }
+        }
+        // the secret does not enter slots 0,1 or the garbage: share a different secret, same seed
+        {
+            let mut f2 = (false, false, false);
+            let v2 = gen_value(&t, &mut rng, &mut f2);
+            let tv2 = TypedValue::new(t.clone(), v2).unwrap();
+            let l2 = observe(move || { let mut p = PRNG::new(Some(sd))?; tv2.get_local_shares_for_each_party(&mut p) });
+            match l2 {
+                Outcome::Ok(l2) => {
+                    let q: Vec<Vec<Value>> = l2.iter().map(slots).collect();
+                    let same = q[0][0] == ps[0][0] && q[0][1] == ps[0][1] && q[0][2] == ps[0][2] && q[1][0] == ps[1][0] && q[2][1] == ps[2][1];
+                    if same { out.oracle_ok() } else { out.violation("slots-depend-on-secret", input.clone(), "party 0's whole tuple / a garbage slot changed with the secret".into()) }
+                }
+                _ => out.violation("local-shares-fail", input.clone(), "second sharing failed".into()),
+            }
+        }
+
+        if !emit {
+            continue;
+        }
+        // ---- ReplicatedShares ----------------------------------------------------------------
+        let rs_loc = { let tv = tv.clone(); observe(move || { let mut p = PRNG::new(Some(sd))?; ReplicatedShares::secret_share_for_local_evaluation(tv, &mut p)?.to_tuple() }) };
+        if let (Some(r), true) = (opt_res(&rs_loc, dec_tv), all || (k / 8 + k) % 2 == 1) {
+            out.case("rs_local_to_tuple", format!("bind (rs_secret_share_for_local_evaluation {} {} {}) rs_to_tuple", tvc, dc[0], dc[1]), r, input.clone(), nontrivial);
+        }
+        match &rs_loc { Outcome::Ok(x) if *x == sh => out.oracle_ok(), _ => out.violation("rs-local-differs", input.clone(), "ReplicatedShares local form differs from TypedValue::secret_share".into()) }
+        let rs_rev = { let tv = tv.clone(); observe(move || { let mut p = PRNG::new(Some(sd))?; ReplicatedShares::secret_share_for_local_evaluation(tv, &mut p)?.reveal() }) };
+        if let Some(r) = opt_res(&rs_rev, dec_tv) {
+            out.case("rs_local_reveal", format!("bind (rs_secret_share_for_local_evaluation {} {} {}) rs_reveal", tvc, dc[0], dc[1]), r, input.clone(), nontrivial);
+        }
+        match &rs_rev { Outcome::Ok(r) if r.t == t && r.value == v => out.oracle_ok(), _ => out.violation("rs-reveal-differs", input.clone(), "ReplicatedShares reveal(share(v)) != v".into()) }
+        let rs_par = { let tv = tv.clone(); observe(move || { let mut p = PRNG::new(Some(sd))?; let v = ReplicatedShares::secret_share_for_parties(tv, &mut p)?; v.iter().map(|x| x.to_tuple()).collect::<ciphercore_base::errors::Result<Vec<TypedValue>>>() }) };
+        // (the two per-party ReplicatedShares cases repeat the largest observation: every other round)
+        if let (Some(r), true) = (opt_res(&rs_par, dec_tvs), all || (k / 8 + k) % 4 == 0) {
+            out.case("rs_parties_to_tuple", format!("bind (rs_secret_share_for_parties {} {}) (mapM rs_to_tuple)", tvc, dc.join(" ")), r, input.clone(), nontrivial);
+        }
+        match &rs_par { Outcome::Ok(x) if *x == loc => out.oracle_ok(), _ => out.violation("rs-parties-differ", input.clone(), "ReplicatedShares per-party form differs from get_local_shares_for_each_party".into()) }
+        // reveal applied to a single party's (garbage-containing) shares: ties rs_reveal on arbitrary inputs
+        let rs_par_rev = { let tv = tv.clone(); observe(move || { let mut p = PRNG::new(Some(sd))?; let v = ReplicatedShares::secret_share_for_parties(tv, &mut p)?; v.iter().map(|x| x.reveal()).collect::<ciphercore_base::errors::Result<Vec<TypedValue>>>() }) };
+        if let (Some(r), true) = (opt_res(&rs_par_rev, dec_tvs), all || (k / 8 + k) % 4 == 2) {
+            out.case("rs_parties_reveal", format!("bind (rs_secret_share_for_parties {} {}) (mapM rs_reveal)", tvc, dc.join(" ")), r, input.clone(), nontrivial);
+        }
+        // from_tuple . to_tuple
+        {
+            let sh2 = sh.clone();
+            let r = observe(move || ReplicatedShares::from_tuple(sh2)?.to_tuple());
+            if let (Some(l), Some(r), true) = (dec_tv(&sh), opt_res(&r, dec_tv), all || (k / 8 + k) % 2 == 0) {
+                out.case("rs_from_tuple", format!("bind (rs_from_tuple {}) rs_to_tuple", l), r, input.clone(), nontrivial);
+            }
+        }
+
+        // ---- generalized_add / generalized_subtract on two arbitrary values of the type ------
+        {
+            let (a, b) = (d[2].clone(), gen_value(&t, &mut rng, &mut (false, false, false)));
+            let (ac, bc) = (dc[2].clone(), dec(&b, &t).unwrap());
+            let r = { let (a, b, t) = (a.clone(), b.clone(), t.clone()); observe(move || generalized_add(a, b, t)) };
+            if let Some(rc) = opt_res(&r, |x| dec(x, &t)) {
+                out.case("generalized_add", format!("generalized_add {} {} {}", ac, bc, tc), rc, input.clone(), nontrivial);
+            }
+            let r2 = { let (a, b, t) = (a.clone(), b.clone(), t.clone()); observe(move || generalized_subtract(a, b, t)) };
+            if let Some(rc) = opt_res(&r2, |x| dec(x, &t)) {
+                out.case("generalized_subtract", format!("generalized_subtract {} {} {}", ac, bc, tc), rc, input.clone(), nontrivial);
+            }
+            // (a + b) - b == a
+            if let (Outcome::Ok(s), true) = (&r, true) {
+                let (s, b2, t2) = (s.clone(), b.clone(), t.clone());
+                match observe(move || generalized_subtract(s, b2, t2)) {
+                    Outcome::Ok(x) if x == a => out.oracle_ok(),
+                    _ => out.violation("add-then-subtract", input.clone(), "(a+b)-b != a".into()),
+                }
+            }
+        }
+        // ---- malformed stream: values of a structurally different type -------------------------
+        if (k / 8 + k) % 2 == 0 {
+            let t2 = mutate(&t, &mut rng);
+            if t2.is_valid() {
+                let b = gen_value(&t2, &mut rng, &mut (false, false, false));
+                let bc = dec(&b, &t2).unwrap();
+                let top = if rng.chance(1, 2) { t.clone() } else { t2.clone() };
+                let (x, xc, y, yc) = if rng.chance(1, 2) { (v.clone(), vc.clone(), b, bc) } else { (b, bc, v.clone(), vc.clone()) };
+                let minput = json!({"op_type": format!("{}", top), "type_a_b": [format!("{}", t), format!("{}", t2)]});
+                let r = { let (x, y, t) = (x.clone(), y.clone(), top.clone()); observe(move || generalized_add(x, y, t)) };
+                out.stat(&format!("mismatch-add:{}", r.tag()));
+                if let Some(rc) = opt_res(&r, |z| dec(z, &top)) {
+                    out.case("generalized_add_mismatch", format!("generalized_add {} {} {}", xc, yc, ty(&top)), rc, minput.clone(), true);
+                }
+                let r = { let (x, y, t) = (x.clone(), y.clone(), top.clone()); observe(move || generalized_subtract(x, y, t)) };
+                if let Some(rc) = opt_res(&r, |z| dec(z, &top)) {
+                    out.case("generalized_subtract_mismatch", format!("generalized_subtract {} {} {}", xc, yc, ty(&top)), rc, minput.clone(), true);
+                }
+            }
+        }
+        // ---- secret_share_reveal / from_tuple on things that are not a sharing -----------------
+        if (k / 8 + k) % 2 == 1 {
+            let cand: TypedValue = match rng.below(6) {
+                0 => tv.clone(),
+                1 => {
+                    // three unrelated values of the same type
+                    TypedValue { t: triple(&t), value: Value::from_vector(vec![d[2].clone(), d[3].clone(), d[4].clone()]), name: None }
+                }
+                2 => {
+                    let t2 = mutate(&t, &mut rng);
+                    if t2.is_valid() {
+                        let b = gen_value(&t2, &mut rng, &mut (false, false, false));
+                        TypedValue { t: tuple_type(vec![t.clone(), t2, t.clone()]), value: Value::from_vector(vec![d[2].clone(), b, d[4].clone()]), name: None }
+                    } else { tv.clone() }
+                }
+                3 => TypedValue { t: tuple_type(vec![t.clone(), t.clone()]), value: Value::from_vector(vec![d[2].clone(), d[3].clone()]), name: None },
+                4 => TypedValue { t: triple(&t), value: Value::from_vector(vec![d[2].clone(), d[3].clone()]), name: None },
+                _ => TypedValue { t: tuple_type(vec![]), value: Value::from_vector(vec![]), name: None },
+            };
+            if let Some(cc) = dec_tv(&cand) {
+                let minput = json!({"candidate_type": format!("{}", cand.t)});
+                let r = { let c = cand.clone(); observe(move || c.secret_share_reveal()) };
+                out.stat(&format!("reveal-nonshare:{}", r.tag()));
+                if let Some(rc) = opt_res(&r, dec_tv) {
+                    out.case("secret_share_reveal_any", format!("secret_share_reveal {}", cc), rc, minput.clone(), true);
+                }
+                let r = { let c = cand.clone(); observe(move || ReplicatedShares::from_tuple(c)?.to_tuple()) };
+                out.stat(&format!("from_tuple-any:{}", r.tag()));
+                if let Some(rc) = opt_res(&r, dec_tv) {
+                    out.case("rs_from_tuple_any", format!("bind (rs_from_tuple {}) rs_to_tuple", cc), rc, minput.clone(), true);
+                }
+                let r = { let c = cand.clone(); observe(move || ReplicatedShares::from_tuple(c)?.reveal()) };
+                out.stat(&format!("from_tuple-reveal-any:{}", r.tag()));
+                if let Some(rc) = opt_res(&r, dec_tv) {
+                    out.case("rs_from_tuple_reveal_any", format!("bind (rs_from_tuple {}) rs_reveal", cc), rc, minput, true);
+                }
+            }
+        }
+    }
+
+    // ---- mpc::utils::share_vector ---------------------------------------------------------------
+    let sv_rounds = match tier { "thorough" => 40, "search" => 40, _ => 4 };
+    for round in 0..sv_rounds {
+        for &st in ALL_ST.iter() {
+            let n = match round % 4 { _ if st == BIT && round % 2 == 0 => 1, 0 => 1, 1 => 1 + rng.below(4) as usize, 2 => rng.below(3) as usize, _ => 5 + rng.below(30) as usize };
+            let data: Vec<i128> = (0..n).map(|_| if st == BIT { rng.below(2) as i128 } else { boundary_i128(st, &mut rng) }).collect();
+            let sd = seed_of(&mut rng);
+            let n_bytes = n * ((st.size_in_bits() as usize + 7) / 8); // data_types.rs scalar_size_in_bytes is crate-private
+            let mut q = PRNG::new(Some(sd)).unwrap();
+            let raw: Vec<Vec<u8>> = (0..5).map(|_| q.get_random_bytes(n_bytes).unwrap()).collect();
+            let at = array_type(vec![n as u64], st);
+            let rd = |b: &Vec<u8>| Value::from_bytes(b.clone()).to_flattened_array_u128(at.clone()).unwrap_or_default();
+            let (r0, r1) = (rd(&raw[0]), rd(&raw[1]));
+            let g: Vec<Vec<u128>> = raw[2..5].iter().map(|b| vec_u128_from_bytes(b, st).unwrap_or_default()).collect();
+            let input = json!({"st": scalar(st), "n": n, "data": data.iter().take(6).map(|x| z_i128(*x)).collect::<Vec<_>>()});
+            let r = { let data = data.clone(); observe(move || { let mut p = PRNG::new(Some(sd))?; share_vector(&mut p, &data, st) }) };
+            out.stat(&format!("share_vector:{}:{}", if st == BIT { "Bit" } else { "non-bit" }, r.tag()));
+            let t3 = triple(&at);
+            if emit {
+                if let Some(rc) = opt_res(&r, |vs| { let mut parts = vec![]; for x in vs { parts.push(dec(x, &t3)?); } Some(format!("[{}]", parts.join("; "))) }) {
+                    out.case("share_vector", format!("share_vector {} {} {} {} {} {} {}", scalar(st), list_i128(&data), list_u128(&r0), list_u128(&r1), list_u128(&g[0]), list_u128(&g[1]), list_u128(&g[2])), rc, input.clone(), st != BIT && n > 0);
+                }
+            }
+            match &r {
+                Outcome::Ok(vs) => {
+                    // oracle: layout and reconstruction through the crate's own reveal
+                    let p: Vec<Vec<Value>> = vs.iter().map(|x| x.to_vector().unwrap()).collect();
+                    let lay = p[0][0] == p[2][0] && p[0][1] == p[1][1] && p[1][2] == p[2][2];
+                    let expect = Value::from_flattened_array(&data, st).unwrap();
+                    let c = TypedValue { t: t3.clone(), value: Value::from_vector(vec![p[0][0].clone(), p[0][1].clone(), p[1][2].clone()]), name: None };
+                    let rv = observe(move || c.secret_share_reveal());
+                    let rec = matches!(&rv, Outcome::Ok(x) if x.value == expect);
+                    if lay && rec { out.oracle_ok() } else { out.violation("share_vector", input.clone(), format!("layout ok: {}, reconstructs: {}", lay, rec)) }
+                }
+                Outcome::Err => {
+                    // documented-by-code rejections only: empty data, or Bit data of more than one entry
+                    if n == 0 || (st == BIT && n != 1) { out.stat("share_vector:rejected-as-modelled") } else { out.violation("share_vector-fails", input.clone(), "share_vector failed".into()) }
+                }
+                Outcome::Panic => out.violation("share_vector-panics", input.clone(), "share_vector panicked".into()),
+            }
+        }
+    }
+
+    // ---- distribution of one party's view (coarse; exact statement is C14_two_shares_uniform) ----
+    // Bit secret, party 1 sees (s1, s2): over many seeds each of the 4 pairs must be about equally
+    // frequent for secret 0 and for secret 1.
+    let trials: u64 = if tier == "quick" { 800 } else { 4000 };
+    for secret in 0..2u64 {
+        for party in 0..3usize {
+            let mut cnt = [0u64; 4];
+            for _ in 0..trials {
+                let sd = seed_of(&mut rng);
+                let tv = TypedValue::from_scalar(secret, BIT).unwrap();
+                let mut p = PRNG::new(Some(sd)).unwrap();
+                let l = tv.get_local_shares_for_each_party(&mut p).unwrap();
+                let s = slots(&l[party]);
+                let a = s[party].to_u64(BIT).unwrap();
+                let b = s[(party + 1) % 3].to_u64(BIT).unwrap();
+                cnt[(2 * a + b) as usize] += 1;
+            }
+            let e = trials as f64 / 4.0;
+            let sigma = (trials as f64 * 3.0 / 16.0).sqrt();
+            let worst = cnt.iter().map(|c| ((*c as f64) - e).abs() / sigma).fold(0.0, f64::max);
+            out.stat(&format!("view-distribution:secret{}:party{}:{:?}", secret, party, cnt));
+            if worst > 5.5 {
+                out.violation("view-not-uniform", json!({"secret": secret, "party": party, "counts": cnt.to_vec()}), format!("a cell deviates {:.1} sigma", worst));
+            } else {
+                out.oracle_ok();
+            }
+        }
+    }
+}
